@@ -36,16 +36,27 @@ def bulk_presentations(m, tier):
             for pos in sorted({0, 500, 1000, n - 1} & set(range(n)))]
 
 
+BIG = 48   # job sets above this size: positions on a grid, not all
+
+
+def grid(m, n=16):
+    """<= n positions spread over range(m), both ends included"""
+    if m <= n:
+        return list(range(m))
+    return sorted({round(i * (m - 1) / (n - 1)) for i in range(n)})
+
+
 def stage_a_presentations(m, tier):
     full = m <= (5 if tier == "quick" else 6)
     idx = list(range(m))
     perms = []
+    big = m > BIG
     if full:
         perms = [list(p) for p in itertools.permutations(idx)]
     else:
-        perms = [idx[k:] + idx[:k] for k in range(m)]
+        perms = [idx[k:] + idx[:k] for k in (grid(m) if big else range(m))]
         perms.append(idx[::-1])
-        for k in range(m - 1):
+        for k in (grid(m - 1) if big else range(m - 1)):
             p = list(idx)
             p[k], p[k + 1] = p[k + 1], p[k]
             perms.append(p)
@@ -57,7 +68,7 @@ def stage_a_presentations(m, tier):
         out.append({"events": eo, "rename": True})
         out.append({"events": eo, "shift": 7919})
         out.append({"events": eo, "rename": True, "shift": 86399})
-        for d in range(m):
+        for d in (grid(m, 8) if big else range(m)):
             out.append({"events": eo, "dup": d})
     # single events of all jobs in one flat stream, grouped by jobId by the
     # tool itself (the -group-by-job path: cluster_events_by_job_id)
@@ -121,7 +132,8 @@ def sigma_specs(jobs, small):
     idx = list(range(m))
     pairs = list(itertools.combinations(idx, 2))
     if len(pairs) > 15:
-        pairs = [(k, k + 1) for k in range(m - 1)]
+        pairs = [(k, k + 1) for k in
+                 (grid(m - 1) if m > BIG else range(m - 1))]
     for i, j in pairs:
         p = list(idx)
         p[i], p[j] = p[j], p[i]
@@ -286,12 +298,15 @@ def build(tier, ctx):
 def collect(tier, tasks, results, ctx):
     viol = []
     evalsA = evalsB = bulk = 0
+    capped = set()
     states = trans = traces = 0
     dict_orders = 0
     by_def = {}
     for t, r in zip(tasks, results):
         if r["kind"] == "A":
             for o in r["out"]:
+                if o["jobs"] > BIG:
+                    capped.add(input_key(o["defn"]))
                 if t.get("bulk"):
                     bulk += o["n"]
                 evalsA += o["n"]
@@ -312,6 +327,8 @@ def collect(tier, tasks, results, ctx):
         else:
             by_def.setdefault(input_key(t["defn"]),
                               {"task": t, "runs": []})["runs"] += r["runs"]
+            if r.get("jobs", 0) > BIG:
+                capped.add(input_key(t["defn"]))
     unstable = 0
     steered = 0
     nontrivial = 0
@@ -375,6 +392,11 @@ def collect(tier, tasks, results, ctx):
                 "non-trivial = Stage-B definitions with a fork or loop",
         "samples": samples or [{"note": "no definition with > 20 schedules"}],
         "exhaustive": True,
+        "capped": bool(capped),
+        "definitions_with_positions_on_a_grid": len(capped),
+        "cap": "job sets of more than %d jobs: rotations, adjacent "
+               "transpositions and duplicated jobs at <= 16 (8) positions "
+               "spread over the job list instead of every position" % BIG,
         "bounds": {"tier": tier,
                    "stage_A": ("F_5" if tier == "quick" else "F_6") +
                    " + corpus + families (repeated events, branch counts, "
